@@ -5,7 +5,7 @@
    r_run = CPXRouter (Arrive = one iteration of run(), Recv f = receivePacket(f, timeout));
    sys_run = router on the real transport; tunnel_tx/tunnel_rx = Tcp/SerialDriver.send_packet and
    _CPXReceiveThread.run; chunking s b = s cuts b into consecutive non-empty pieces. *)
-From CF Require Import Common.Bytes C18.Model C18.Proofs C18.Uart.
+From CF Require Import Common.Bytes C18.Model C18.Proofs C18.Uart C18.Driver.
 Open Scope Z_scope.
 
 (* Encoding then decoding returns source, destination, function, last-packet flag and payload intact for
@@ -271,3 +271,67 @@ Theorem C18_router_consumes_stream : forall script ps s st, Forall wf_cpx ps -> 
   ((length ps <= count_pump script)%nat -> concat (fst (fst (sys_run s st script))) = []).
 Proof. exact router_consumes. Qed.
 Print Assumptions C18_router_consumes_stream.
+
+(* ---- growth round: TcpDriver as a whole, transactions under other traffic, UART connect / noise / checksum ---- *)
+
+(* TcpDriver downlink: after connect (the CRTP queue exists before the router reads anything: fix F18e), for every
+   list of packets on the stream and every fragmentation, in_queue receives exactly the CRTP-function packets as CRTP
+   packets, in order; the stream is consumed. *)
+Theorem C18_driver_downlink : forall takes ps s, Forall wf_cpx ps -> concat s = concat (map frame ps) ->
+  let d := d_pumps (length ps) (fst (d_connect takes s)) in
+  d_inq d = crtp_of ps /\ concat (cs_in (d_c d)) = [] /\ d_inv d.
+Proof. exact driver_downlink. Qed.
+Print Assumptions C18_driver_downlink.
+
+(* receive_packet(wait) hands them out one at a time, in order, for any wait arguments (0, > 0, < 0) *)
+Theorem C18_driver_receive_in_order : forall takes ks d ws, d_inq d = ks -> length ws = length ks ->
+  snd (d_run takes d (map DRecv ws)) = map (fun k => DGot (Some k)) ks.
+Proof. exact driver_receive_in_order. Qed.
+Print Assumptions C18_driver_receive_in_order.
+
+(* connect announces the bridge; send_packet writes exactly the frame of CPX(HOST->STM32, CRTP, header :: data) under any
+   short-write pattern; after close it fails *)
+Theorem C18_driver_uplink : forall takes s h data d, zlen data <= 65532 ->
+  snd (d_connect takes s) = Ok [4; 0; 25; 1; 33; 1] /\
+  (d_up d = true -> snd (d_step takes d (DSend h data)) = [DSent (Ok (frame (tunnel_tx h data)))]) /\
+  snd (d_step takes (fst (d_step takes d DClose)) (DSend h data)) = [DSent (Exc AttributeErr)].
+Proof. exact driver_uplink. Qed.
+Print Assumptions C18_driver_uplink.
+
+(* makeTransaction: the reply of the function is returned also when any number of packets of OTHER functions arrive first *)
+Theorem C18_cpx_transaction_other_traffic : forall takes p others r b s st,
+  wf_cpx p -> Forall wf_cpx others -> Forall (fun o => c_fn o <> c_fn p) others -> wf_cpx r -> c_fn r = c_fn p ->
+  concat s = concat (map frame others) ++ frame r ++ b ->
+  (st (c_fn p) = None \/ st (c_fn p) = Some []) ->
+  exists c', c_step takes (mk_cs s st true) (CTransact p (S (length others))) = (c', [OTrans (Ok (frame p)) (Some r)]) /\
+    concat (cs_in c') = b /\ cs_rt c' (c_fn p) = Some [] /\ cs_open c' = true.
+Proof. exact c_transact_reply_after_others. Qed.
+Print Assumptions C18_cpx_transaction_other_traffic.
+
+(* UART: valid frames with arbitrary line noise (any bytes but the start byte 0xFF) before, between and after them are
+   re-assembled into exactly the frames; the noise after the last frame yields nothing *)
+Theorem C18_uart_noisy_stream : forall items tail lock,
+  Forall (fun gp => Forall (fun x => x <> 255) (fst gp) /\ wf_cpx (snd gp) /\ zlen (c_data (snd gp)) <= 253) items ->
+  uart_read_n (length items) (uart_noisy items tail) lock =
+  (map (fun gp => UPacket (Ok (snd gp)) true) items, tail, lock).
+Proof. exact uart_read_noisy. Qed.
+Print Assumptions C18_uart_noisy_stream.
+
+(* UART connect(): synchronises on the first 0xFF 0x00 after noise *)
+Theorem C18_uart_connect_sync : forall g b, Forall (fun x => x <> 255) g -> uart_connect (g ++ 255 :: 0 :: b) = Some b.
+Proof. exact uart_connect_sync. Qed.
+Print Assumptions C18_uart_connect_sync.
+
+(* UART checksum: what the code does with ANY checksum byte — the packet is decoded and handed on, the comparison only
+   sets the (printed) flag.  Recorded behaviour, not a preservation claim (see design.d/C18.md). *)
+Theorem C18_uart_checksum_only_reported : forall w c rest lock, 0 < zlen w <= 255 ->
+  uart_read (255 :: zlen w :: w ++ c :: rest) lock =
+  (UPacket (set_wire w) (c =? xor_sum (255 :: zlen w :: w)), rest, lock).
+Proof. exact uart_read_any_crc. Qed.
+Print Assumptions C18_uart_checksum_only_reported.
+
+(* pyserial's blocking read(n) is independent of how the line delivered the bytes *)
+Theorem C18_serial_read_fragmentation_free : forall s n, 0 <= n <= zlen (concat s) ->
+  exists s', read_data n [] s = Some (firstn (Z.to_nat n) (concat s), s') /\ concat s' = skipn (Z.to_nat n) (concat s).
+Proof. exact serial_read_fragmentation_free. Qed.
+Print Assumptions C18_serial_read_fragmentation_free.
